@@ -568,6 +568,9 @@ const fn mul(a: u64, b: u64) -> u64 {
 #[inline(always)]
 #[allow(clippy::many_single_char_names)]
 fn inv(x: u64) -> u64 {
+    // `x` is in [0, 2M), so zero may also be represented as M; reduce to the canonical
+    // representative first, otherwise the loop below never terminates for x = M
+    let x = normalize(x);
     if x == 0 {
         return 0;
     };
